@@ -289,3 +289,227 @@ Fixpoint mismatches_from {A} (ok : A -> bool) (i : nat) (l : list A) : list nat 
   | x :: l' => if ok x then mismatches_from ok (S i) l' else i :: mismatches_from ok (S i) l'
   end.
 Definition c19_mismatches (l : list rt_case) : list nat := mismatches_from rt_case_ok 0 l.
+
+(* ================================================================================================ *)
+(* Well-formed values of the WHOLE graph (hooked structs included) and the table conditions for the  *)
+(* full round-trip theorem                                                                           *)
+(* ================================================================================================ *)
+Definition all_strings (es : list (string * val)) : Prop := Forall (fun kv => exists s, snd kv = VStr s) es.
+Definition hidden_meta_ok (h : val) : Prop := h = VNil \/ exists r es, h = VRef r es /\ all_strings es.
+
+(* what a value of a hooked struct must satisfy besides the well-formedness of what it hands to the encoder *)
+Definition shadow_side (sh : shadow) (v : val) : Prop :=
+  Forall (fun p => match p with
+                   | (_, H, CMeta) => forall h, iget [H] v = Some h -> hidden_meta_ok h
+                   | _ => True
+                   end) (sh_pairs sh).
+(* FilterChain: the parsed context list is never empty (UnmarshalJSON always fills it) *)
+Definition chain_side (ctxs : nat) (v : val) : Prop := exists r e es, iget [ctxs] v = Some (VRef r (e :: es)).
+(* RouterConfiguration / ClusterManagerConfig: inline mode (path mode keeps the items in files: c19_..._partial) *)
+Definition inline_side (tgt pathf : nat) (v : val) : Prop := iget [tgt; pathf] v = Some (VStr "").
+(* Listener: a resolved address, a normalised network *)
+Definition listener_side (tgt addr network : nat) (v : val) : Prop :=
+  exists c a nw, iget [addr] v = Some (VOpaque c a) /\ a <> "" /\ iget [tgt; network] v = Some (VStr nw) /\
+                 lower nw = nw /\ (nw = "tcp" \/ nw = "udp" \/ nw = "unix").
+Definition hook_side (h : chook) (v : val) : Prop :=
+  match h with
+  | CShadow sh => shadow_side sh v
+  | CChain _ ctxs _ _ => chain_side ctxs v
+  | CInline tgt _ pathf _ => inline_side tgt pathf v
+  | CListener tgt addr _ network _ => listener_side tgt addr network v
+  | _ => False
+  end.
+
+Inductive WF (T : table) : ty -> val -> Prop :=
+| WF_leaf t v :
+    match v with
+    | VStruct _ | VRef _ _ => False
+    | VJson _ => match t with TNamed _ => False | _ => True end
+    | _ => True
+    end -> wf T t v = true -> WF T t v
+| WF_ptr t' r k x : WF T t' x -> WF T (TPtr t') (VRef r [(k, x)])
+| WF_slice t' r es : Forall (fun kv => WF T t' (snd kv)) es -> WF T (TSlice t') (VRef r es)
+| WF_map t' r es : Forall (fun kv => WF T t' (snd kv)) es -> WF T (TMap t') (VRef r es)
+| WF_plain n sd vs :
+    find_struct T n = Some sd -> plain_struct sd = true ->
+    Forall2 (fun fd x => WF T (f_ty fd) x) (s_fields sd) vs -> WF T (TNamed n) (VStruct vs)
+| WF_hooked n sd vs t2 w :
+    find_struct T n = Some sd -> hook_out T sd (hook_compiled T sd) (VStruct vs) = Some (t2, w) ->
+    hook_side (hook_compiled T sd) (VStruct vs) -> List.length vs = List.length (s_fields sd) -> s_mptr sd = false ->
+    WF T t2 w -> WF T (TNamed n) (VStruct vs)
+| WF_json n sd j :
+    find_struct T n = Some sd -> hook_compiled T sd = CJson -> j <> JNull -> WF T (TNamed n) (VJson j).
+
+(* conditions on a hooked struct of the table (all computable) *)
+Definition plain_target (T : table) (t : ty) : option sdesc :=
+  match t with
+  | TNamed n => match find_struct T n with Some tsd => if (plain_struct tsd && struct_ok tsd)%bool then Some tsd else None | None => None end
+  | _ => None
+  end.
+Definition field_at (sd : sdesc) (i : nat) : option field := nth_error (s_fields sd) i.
+Fixpoint nodupb (l : list nat) : bool :=
+  match l with [] => true | x :: l' => (negb (existsb (Nat.eqb x) l') && nodupb l')%bool end.
+Definition is_meta_slot (t : ty) : bool := match t with TPtr (TNamed n) => String.eqb n "v2.MetadataConfig" | _ => false end.
+
+Definition hook_ok (T : table) (sd : sdesc) : bool :=
+  let nf := List.length (s_fields sd) in
+  match hook_compiled T sd with
+  | CNone | CJson => true
+  | CBad => false
+  | CShadow sh =>
+    let X := sh_tgt sh in
+    (Nat.ltb X nf && ty_ptr_ok (field_ty sd X) && negb (s_mptr sd)
+     && nodupb (map (fun p => snd (fst p)) (sh_pairs sh))
+     && nodupb (map (fun p => fst (fst p)) (sh_pairs sh))
+     && forallb (fun p => (negb (Nat.eqb (snd (fst p)) X) && Nat.ltb (snd (fst p)) nf)%bool) (sh_pairs sh)
+     && match field_ty sd X with TNamed _ => match plain_target T (field_ty sd X) with Some _ => true | None => false end | _ => true end
+     && match sh_pairs sh with
+        | [] => true
+        | _ => match plain_target T (field_ty sd X) with
+               | Some tsd =>
+                 forallb (fun p => match p with
+                                   | (i, _, c) =>
+                                     match field_at tsd i with
+                                     | Some fd => (negb (f_skip fd) &&
+                                                   match c, f_ty fd with
+                                                   | CId (Some _), TOpaque _ => true
+                                                   | CId None, _ => true
+                                                   | CMeta, t => is_meta_slot t
+                                                   | _, _ => false
+                                                   end)%bool
+                                     | None => false
+                                     end
+                                   end) (sh_pairs sh)
+               | None => false
+               end
+        end)%bool
+  | CChain tgt ctxs single set =>
+    (Nat.ltb tgt nf && Nat.ltb ctxs nf && negb (Nat.eqb tgt ctxs) && negb (s_mptr sd)
+     && match plain_target T (field_ty sd tgt) with
+        | Some tsd =>
+          (match field_at tsd single with Some fd => (negb (f_skip fd) && match f_ty fd with TPtr _ => true | _ => false end)%bool | None => false end
+           && match field_at tsd set with Some fd => (negb (f_skip fd) && match f_ty fd with TSlice _ => true | _ => false end)%bool | None => false end
+           && negb (Nat.eqb single set))%bool
+        | None => false
+        end)%bool
+  | CInline tgt hidden pathf inlf =>
+    (Nat.ltb tgt nf && Nat.ltb hidden nf && negb (Nat.eqb tgt hidden) && negb (s_mptr sd)
+     && match field_ty sd hidden with TSlice _ => true | _ => false end
+     && match plain_target T (field_ty sd tgt) with
+        | Some tsd =>
+          (match field_at tsd pathf with Some fd => (negb (f_skip fd) && f_omit fd && match f_ty fd with TStr => true | _ => false end)%bool | None => false end
+           && match field_at tsd inlf with Some fd => (negb (f_skip fd) && f_omit fd && match f_ty fd with TSlice _ => true | _ => false end)%bool | None => false end
+           && negb (Nat.eqb pathf inlf))%bool
+        | None => false
+        end)%bool
+  | CListener tgt addr addrcfg network perconn =>
+    (Nat.ltb tgt nf && Nat.ltb addr nf && Nat.ltb perconn nf && negb (s_mptr sd)
+     && negb (Nat.eqb tgt addr) && negb (Nat.eqb tgt perconn) && negb (Nat.eqb addr perconn)
+     && match plain_target T (field_ty sd tgt) with
+        | Some tsd =>
+          (match field_at tsd addrcfg with Some fd => (negb (f_skip fd) && match f_ty fd with TStr => true | _ => false end)%bool | None => false end
+           && match field_at tsd network with Some fd => (negb (f_skip fd) && match f_ty fd with TStr => true | _ => false end)%bool | None => false end
+           && negb (Nat.eqb addrcfg network))%bool
+        | None => false
+        end)%bool
+  end.
+
+(* GRPC's MarshalJSON has a pointer receiver: json.Marshal of a VALUE does not call it; such structs are outside *)
+Definition hooks_ok (T : table) : bool :=
+  forallb (fun sd => (s_mptr sd || hook_ok T sd)%bool) T.
+
+(* a boolean decision of WF (fuel bounds the hook indirections), for examples and the correspondence *)
+Fixpoint wfb (T : table) (fuel : nat) (t : ty) (v : val) {struct fuel} : bool :=
+  match fuel with
+  | O => false
+  | S f =>
+    match v with
+    | VStruct vs =>
+      match t with
+      | TNamed n =>
+        match find_struct T n with
+        | Some sd =>
+          if plain_struct sd then
+            (fix go (fds : list field) (vs : list val) {struct vs} : bool :=
+               match vs, fds with
+               | [], [] => true
+               | x :: vs', fd :: fds' => (wfb T f (f_ty fd) x && go fds' vs')%bool
+               | _, _ => false
+               end) (s_fields sd) vs
+          else
+            match hook_out T sd (hook_compiled T sd) v with
+            | Some (t2, w) =>
+              (Nat.eqb (List.length vs) (List.length (s_fields sd)) && negb (s_mptr sd) && wfb T f t2 w &&
+               match hook_compiled T sd with
+               | CShadow sh =>
+                 forallb (fun p => match p with
+                                   | (_, H, CMeta) =>
+                                     match iget [H] v with
+                                     | Some VNil | None => true
+                                     | Some (VRef _ es) => forallb (fun kv => match snd kv with VStr _ => true | _ => false end) es
+                                     | Some _ => false
+                                     end
+                                   | _ => true
+                                   end) (sh_pairs sh)
+               | CChain _ ctxs _ _ => match iget [ctxs] v with Some (VRef _ (_ :: _)) => true | _ => false end
+               | CInline tgt _ pathf _ => match iget [tgt; pathf] v with Some (VStr s) => String.eqb s "" | _ => false end
+               | CListener tgt addr _ network _ =>
+                 match iget [addr] v, iget [tgt; network] v with
+                 | Some (VOpaque _ a), Some (VStr nw) =>
+                   (negb (String.eqb a "") && String.eqb (lower nw) nw
+                    && (String.eqb nw "tcp" || String.eqb nw "udp" || String.eqb nw "unix"))%bool
+                 | _, _ => false
+                 end
+               | _ => false
+               end)%bool
+            | None => false
+            end
+        | None => false
+        end
+      | _ => false
+      end
+    | VRef _ es =>
+      match t with
+      | TPtr t' => match es with [(_, x)] => wfb T f t' x | _ => false end
+      | TSlice t' | TMap t' => forallb (fun kv => wfb T f t' (snd kv)) es
+      | _ => false
+      end
+    | VJson j =>
+      match t with
+      | TNamed n => match find_struct T n with
+                    | Some sd => match hook_compiled T sd, j with CJson, JNull => false | CJson, _ => true | _, _ => false end
+                    | None => false
+                    end
+      | _ => wf T t v
+      end
+    | _ => wf T t v
+    end
+  end.
+
+(* a pointer to a hooked struct whose target prints as null (a slice target) would not be stable *)
+Fixpoint ptr_hook_ok (T : table) (t : ty) : bool :=
+  match t with
+  | TPtr (TNamed n) =>
+    match find_struct T n with
+    | Some sd => match hook_tgt (hook_compiled T sd) with
+                 | Some X => match field_ty sd X with TNamed _ => true | _ => false end
+                 | None => true
+                 end
+    | None => true
+    end
+  | TPtr t' | TSlice t' | TMap t' => ptr_hook_ok T t'
+  | _ => true
+  end.
+Definition ty_ok (T : table) (t : ty) : bool := (ty_ptr_ok t && ptr_hook_ok T t)%bool.
+
+Definition table_ok2 (T : table) : bool :=
+  (table_ok T && hooks_ok T
+   && forallb (fun sd => forallb (fun fd => ptr_hook_ok T (f_ty fd)) (s_fields sd)) T)%bool.
+
+(* the metadata slot: loading the dump of metadataToConfig(h), h a non-empty string map, gives it back *)
+Definition meta_rt (T : table) : Prop :=
+  forall t, is_meta_slot t = true -> forall r e es, all_strings (e :: es) ->
+    forall fuel fuel' x,
+      fuel_free (encode T fuel t (call_marshal_fn "metadataToConfig" (VRef r (e :: es)))) = true ->
+      decode T fuel' t (encode T fuel t (call_marshal_fn "metadataToConfig" (VRef r (e :: es)))) = Some x ->
+      x = call_marshal_fn "metadataToConfig" (VRef r (e :: es)).
